@@ -2,3 +2,5 @@ import Tibc.Props.C06
 #print axioms Tibc.C06.back_away_base
 #print axioms Tibc.C06.back_away_path
 #print axioms Tibc.C06.parse_full
+#print axioms Tibc.C06.native_class_consistent
+#print axioms Tibc.C06.nft_refund_exact
